@@ -144,6 +144,7 @@ pub const MENU: &[Item] = &[
     it("extend enum E{A}", Role::Ext, Kind::Enum, "E", 0, 0, 1),
     it("type Q{g:Int}", Role::Def, Kind::Object, "Q", 0, 0, 1),
     it("schema{query:R}", Role::Def, Kind::Schema, "schema", 0, 0, 1),
+    it("extend schema{query:R}", Role::Ext, Kind::Schema, "schema", 0, 0, 1),
 ];
 
 /// Start-up self-test: the hand-written item descriptions agree with the syntax of the texts
